@@ -5,6 +5,7 @@ import (
 	"fmt"
 	"net"
 	"sort"
+	"strings"
 	"time"
 
 	"github.com/vmware/go-ipfix/pkg/entities"
@@ -60,6 +61,9 @@ type aggSession struct {
 	keyCat []int
 	keyV6  []bool
 	msgCh  chan *entities.Message
+	// a record that lacked an element was taken in by the process: the model does not say what
+	// the flow looks like then, the session ends there
+	fuzzyAccepted bool
 }
 
 func aggKeyOf(k int, v6 bool) intermediate.FlowKey {
@@ -197,6 +201,38 @@ func atoi(s string) int64 {
 
 // buildMessage makes the decoded-message form of one record, as a collecting process delivers it.
 func (s *aggSession) buildMessage(r aggRec, v6 bool) *entities.Message {
+	return s.buildMessageN([]aggRec{r}, []bool{v6}, "")
+}
+
+// buildMessageN: one data message carrying several records (one set). omit names an element that
+// is left out of every record (a record the aggregation process has to refuse).
+func (s *aggSession) buildMessageN(rs []aggRec, v6s []bool, omit string) *entities.Message {
+	set := entities.NewSet(true)
+	set.PrepareSet(entities.Data, 256)
+	for i, r := range rs {
+		els := s.buildElements(r, v6s[i])
+		if omit != "" {
+			kept := els[:0:0]
+			for _, e := range els {
+				if e.GetName() != omit {
+					kept = append(kept, e)
+				}
+			}
+			els = kept
+		}
+		if err := set.AddRecord(els, 256); err != nil {
+			panic(err)
+		}
+	}
+	msg := entities.NewMessage(true)
+	msg.SetVersion(10)
+	msg.SetObsDomainID(1)
+	msg.SetExportAddress("10.0.0.9")
+	msg.AddSet(set)
+	return msg
+}
+
+func (s *aggSession) buildElements(r aggRec, v6 bool) []entities.InfoElementWithValue {
 	A, I, R := registry.AntreaEnterpriseID, registry.IANAEnterpriseID, registry.IANAReversedEnterpriseID
 	fk := aggKeyOf(r.Key, v6)
 	var els []entities.InfoElementWithValue
@@ -242,17 +278,7 @@ func (s *aggSession) buildMessage(r aggRec, v6 bool) *entities.Message {
 		entities.NewUnsigned64InfoElement(ie("reversePacketDeltaCount", R), r.Delta[1]),
 		entities.NewUnsigned64InfoElement(ie("reverseOctetTotalCount", R), r.Tot[3]),
 	)
-	set := entities.NewSet(true)
-	set.PrepareSet(entities.Data, 256)
-	if err := set.AddRecord(els, 256); err != nil {
-		panic(err)
-	}
-	msg := entities.NewMessage(true)
-	msg.SetVersion(10)
-	msg.SetObsDomainID(1)
-	msg.SetExportAddress("10.0.0.9")
-	msg.AddSet(set)
-	return msg
+	return els
 }
 
 func (s *aggSession) recOf(op plan.Op) aggRec {
@@ -479,9 +505,65 @@ func minT(a, b time.Time) time.Time {
 
 // ---- operations ---------------------------------------------------------------
 
+// opRecs: several records (of different keys) in one message.
+func (s *aggSession) opRecs(i int, op plan.Op) {
+	now := time.Now()
+	var rs []aggRec
+	var v6s []bool
+	seen := map[int]bool{}
+	for _, sub := range op.F {
+		r := s.recOf(sub)
+		if r.Key < 0 || r.Key >= len(s.keyCat) || seen[r.Key] {
+			continue
+		}
+		if len(rs) > 0 && s.keyV6[r.Key] != v6s[0] {
+			continue // one set, one template: records of one address family
+		}
+		if !s.model.clone().ingest(r, now) {
+			s.env.Count("agg.skipped_out_of_contract_record", 1)
+			continue
+		}
+		seen[r.Key] = true
+		s.model.ingest(r, now)
+		rs = append(rs, r)
+		v6s = append(v6s, s.keyV6[r.Key])
+	}
+	if len(rs) == 0 {
+		return
+	}
+	if err := s.ap.AggregateMsgByFlowKey(s.buildMessageN(rs, v6s, "")); err != nil {
+		s.env.Violate("c05-ingest-error", "", "op %d: AggregateMsgByFlowKey (message of %d records) returned %v", i, len(rs), err)
+	}
+	s.env.Count("agg.records", int64(len(rs)))
+	if len(rs) > 1 {
+		s.env.Count("agg.multi_record_messages", 1)
+	}
+	s.env.Logf("op %d recs n=%d", i, len(rs))
+}
+
+// aggOmittable: elements without which the first record of a flow cannot be taken in.
+var aggOmittable = []string{"flowEndSeconds", "octetTotalCount", "reverseOctetTotalCount", "flowStartSeconds"}
+
 func (s *aggSession) opRec(i int, op plan.Op) {
 	r := s.recOf(op)
 	if r.Key < 0 || r.Key >= len(s.keyCat) {
+		return
+	}
+	if op.X != "" {
+		// A record that lacks an element the process needs, for a 5-tuple it holds no flow for: it
+		// has to be refused, and a refused arrival leaves nothing behind (nothing held, nothing
+		// scheduled). With a flow already held the outcome of such a record is not something the
+		// properties speak about: not tried.
+		if s.model.Flows[r.Key] != nil {
+			return
+		}
+		err := s.ap.AggregateMsgByFlowKey(s.buildMessageN([]aggRec{r}, []bool{s.keyV6[r.Key]}, op.X))
+		s.env.Count("fault.record_missing_element", 1)
+		if err == nil {
+			s.env.Count("probe.record_missing_element_accepted."+op.X, 1)
+			s.fuzzyAccepted = true
+		}
+		s.env.Logf("op %d rec key=%d without %s -> err=%v", i, r.Key, op.X, err != nil)
 		return
 	}
 	now := time.Now()
@@ -794,6 +876,8 @@ func (s *aggSession) run(ops []plan.Op) {
 		switch op.K {
 		case "rec":
 			s.opRec(i, op)
+		case "recs":
+			s.opRecs(i, op)
 		case "adv":
 			s.env.Sleep(time.Duration(op.A))
 		case "scan":
@@ -803,11 +887,28 @@ func (s *aggSession) run(ops []plan.Op) {
 			s.opResetAll(i)
 		case "query":
 		}
+		if s.fuzzyAccepted {
+			return
+		}
 		s.checkAll(fmt.Sprintf("after op %d (%s)", i, op.K))
-		if len(s.env.Out.Violations) > 0 {
+		if s.stopNow() {
 			return
 		}
 	}
+}
+
+// stopNow: the session ends at the first violation of one of this property's own clauses. A
+// violation of a sibling property's clause (the three aggregation properties share the engine) is
+// not reported by this check, and the defect behind it may well break this property's sentence a
+// few operations later, so the session goes on (bounded).
+func (s *aggSession) stopNow() bool {
+	prefix := strings.ToLower(s.prop) + "-"
+	for _, v := range s.env.Out.Violations {
+		if strings.HasPrefix(v.Clause, prefix) || v.Clause == "panic" {
+			return true
+		}
+	}
+	return len(s.env.Out.Violations) > 12
 }
 
 // ---- snapshots for history-based checking (C13) ------------------------------
